@@ -3,7 +3,7 @@
 a triangular family on `rankFamily` (`Lat2D.TriangularOpProbes`), for EVERY size with `Ly ≥ 1`; the
 members of `rankFamily` are therefore independent.  Core Lean only.
 -/
-import PanqecVerif.Proofs.LatHollowRhombicCodeRankD
+import PanqecVerif.Proofs.LatHollowRhombicCodeRankDb
 import PanqecVerif.Proofs.LatHollowRhombicCodeRankE
 
 set_option linter.unusedVariables false
@@ -53,6 +53,10 @@ theorem probeKeys_cases (hs : TS Lx Ly Lz a x y z) :
       probeKeys Lx Ly Lz a x y z = [[3, 2, z], [4, 2, z - 1], [3, 2, z - 2]]) ∨
     (a = 0 ∧ x = 2 ∧ y = 2 ∧ QC Lx Ly Lz 2 2 z ∧ (Lx = 3 ∧ 5 ≤ Ly) ∧
       probeKeys Lx Ly Lz a x y z = [[2, 3, z], [2, 4, z - 1], [2, 3, z - 2]]) ∨
+    (a = 0 ∧ x = 2 ∧ z = 2 ∧ QY Lx Ly Lz 2 y 2 ∧
+      probeKeys Lx Ly Lz a x y z = [[3, y, 2], [4, y - 1, 2], [3, y - 2, 2]]) ∨
+    (a = 0 ∧ y = 2 ∧ z = 2 ∧ QX Lx Ly Lz x 2 2 ∧
+      probeKeys Lx Ly Lz a x y z = [[x, 3, 2], [x - 1, 4, 2]]) ∨
     (a = 0 ∧ (x + y + z) % 4 = 0 ∧ z < 2 * (Lz : Int) - 2 ∧ ¬ PT Lx Ly Lz 0 x y (z + 2) ∧
       probeKeys Lx Ly Lz a x y z = [[x, y, z + 1]]) := by
   obtain ⟨ha, hv, hp, hc⟩ := hs
@@ -76,11 +80,13 @@ theorem probeKeys_cases (hs : TS Lx Ly Lz a x y z) :
     · by_cases h2 : (x + y + z) % 4 = 2
       · right; right; right; right; right; left
         have hz : 2 ≤ z := by
-          rcases hc with hc | hc | hc | hc
+          rcases hc with hc | hc | hc | hc | hc | hc
           · exact absurd hc hx
           · exact hc.2
           · omega
           · unfold QC at hc; omega
+          · unfold QY at hc; omega
+          · unfold QX at hc; omega
         exact ⟨rfl, hx, h2, hz, by simp [hx, h2]⟩
       · by_cases hq : QC Lx Ly Lz x y z
         · have hq' := hq
@@ -97,12 +103,32 @@ theorem probeKeys_cases (hs : TS Lx Ly Lz a x y z) :
             · rw [hx2, hy2] at hq; exact hq
             · rw [if_neg (by decide), if_neg (by decide), if_neg (by decide), if_neg hx, if_neg h2,
                 if_pos hq, if_neg h4]
-        · right; right; right; right; right; right; right; right
-          rcases hc with hc | hc | hc | hc
-          · exact absurd hc hx
-          · exact absurd hc.1 h2
-          · exact ⟨rfl, hc.1, hc.2.1, hc.2.2, by simp [hx, h2, hq]⟩
-          · exact absurd hc hq
+        · by_cases hqy : QY Lx Ly Lz x y z
+          · have hq' := hqy
+            unfold QY at hq'
+            obtain ⟨hx2, _, _, hz2, _⟩ := hq'
+            right; right; right; right; right; right; right; right; left
+            refine ⟨rfl, hx2, hz2, ?_, ?_⟩
+            · rw [hx2, hz2] at hqy; exact hqy
+            · rw [if_neg (by decide), if_neg (by decide), if_neg (by decide), if_neg hx, if_neg h2,
+                if_neg hq, if_pos hqy]
+          · by_cases hqx : QX Lx Ly Lz x y z
+            · have hq' := hqx
+              unfold QX at hq'
+              obtain ⟨_, _, hy2, hz2, _⟩ := hq'
+              right; right; right; right; right; right; right; right; right; left
+              refine ⟨rfl, hy2, hz2, ?_, ?_⟩
+              · rw [hy2, hz2] at hqx; exact hqx
+              · rw [if_neg (by decide), if_neg (by decide), if_neg (by decide), if_neg hx, if_neg h2,
+                  if_neg hq, if_neg hqy, if_pos hqx]
+            · right; right; right; right; right; right; right; right; right; right
+              rcases hc with hc | hc | hc | hc | hc | hc
+              · exact absurd hc hx
+              · exact absurd hc.1 h2
+              · exact ⟨rfl, hc.1, hc.2.1, hc.2.2, by simp [hx, h2, hq, hqy, hqx]⟩
+              · exact absurd hc hq
+              · exact absurd hc hqy
+              · exact absurd hc hqx
 
 /-- every qubit of the probe of a selected triangle is a qubit -/
 theorem probeKeys_qubits (hs : TS Lx Ly Lz a x y z) :
@@ -112,7 +138,8 @@ theorem probeKeys_qubits (hs : TS Lx Ly Lz a x y z) :
   have hv' := hv
   unfold VertexLoc inE2 inE at hv'
   rcases probeKeys_cases hs with ⟨rfl, e⟩ | ⟨rfl, e⟩ | ⟨rfl, _, e⟩ | ⟨rfl, _, e⟩ | ⟨rfl, _, e⟩ |
-    ⟨rfl, _, h2, hz, e⟩ | ⟨rfl, rfl, rfl, hq, hg, e⟩ | ⟨rfl, rfl, rfl, hq, hg, e⟩ | ⟨rfl, h0, hz, _, e⟩ <;> rw [e] <;> intro q hq'
+    ⟨rfl, _, h2, hz, e⟩ | ⟨rfl, rfl, rfl, hq, hg, e⟩ | ⟨rfl, rfl, rfl, hq, hg, e⟩ | ⟨rfl, rfl, rfl, hqy, e⟩ | ⟨rfl, rfl, rfl, hqx, e⟩ |
+    ⟨rfl, h0, hz, _, e⟩ <;> rw [e] <;> intro q hq'
   · simp only [List.mem_cons, List.not_mem_nil, or_false] at hq'; subst hq'
     exact triKeys_sub (xleg_mem hv hp)
   · simp only [List.mem_cons, List.not_mem_nil, or_false] at hq'; subst hq'
@@ -134,6 +161,12 @@ theorem probeKeys_qubits (hs : TS Lx Ly Lz a x y z) :
   · obtain ⟨q1, q2, q3⟩ := r_qubits hq hg
     simp only [List.mem_cons, List.not_mem_nil, or_false] at hq'
     rcases hq' with rfl | rfl | rfl <;> assumption
+  · obtain ⟨q1, q2, q3⟩ := y_qubits hqy
+    simp only [List.mem_cons, List.not_mem_nil, or_false] at hq'
+    rcases hq' with rfl | rfl | rfl <;> assumption
+  · obtain ⟨q1, q2⟩ := x_qubits hqx
+    simp only [List.mem_cons, List.not_mem_nil, or_false] at hq'
+    rcases hq' with rfl | rfl <;> assumption
   · simp only [List.mem_cons, List.not_mem_nil, or_false] at hq'; subst hq'
     have e1 := sgnZ0_pos h0
     have := zleg_mem hv hp (by rw [e1]; omega)
@@ -142,9 +175,12 @@ theorem probeKeys_qubits (hs : TS Lx Ly Lz a x y z) :
 
 theorem probeKeys_nodup (hs : TS Lx Ly Lz a x y z) : (probeKeys Lx Ly Lz a x y z).Nodup := by
   rcases probeKeys_cases hs with ⟨rfl, e⟩ | ⟨rfl, e⟩ | ⟨rfl, _, e⟩ | ⟨rfl, _, e⟩ | ⟨rfl, _, e⟩ |
-    ⟨rfl, _, h2, hz, e⟩ | ⟨rfl, rfl, rfl, hq, hg, e⟩ | ⟨rfl, rfl, rfl, hq, hg, e⟩ | ⟨rfl, h0, hz, _, e⟩ <;> rw [e] <;>
+    ⟨rfl, _, h2, hz, e⟩ | ⟨rfl, rfl, rfl, hq, hg, e⟩ | ⟨rfl, rfl, rfl, hq, hg, e⟩ | ⟨rfl, rfl, rfl, hqy, e⟩ | ⟨rfl, rfl, rfl, hqx, e⟩ |
+    ⟨rfl, h0, hz, _, e⟩ <;> rw [e] <;>
     simp only [List.nodup_cons, List.mem_cons, List.cons.injEq, and_true, List.not_mem_nil, or_false,
       not_false_eq_true, List.nodup_nil]
+  · omega
+  · omega
   · omega
   · omega
 
@@ -156,7 +192,8 @@ theorem probeKeys_diag (hs : TS Lx Ly Lz a x y z) :
   have hv' := hv
   unfold VertexLoc inE2 inE at hv'
   rcases probeKeys_cases hs with ⟨rfl, e⟩ | ⟨rfl, e⟩ | ⟨rfl, _, e⟩ | ⟨rfl, _, e⟩ | ⟨rfl, _, e⟩ |
-    ⟨rfl, _, h2, hz, e⟩ | ⟨rfl, rfl, rfl, hq, hg, e⟩ | ⟨rfl, rfl, rfl, hq, hg, e⟩ | ⟨rfl, h0, hz, _, e⟩ <;> rw [e]
+    ⟨rfl, _, h2, hz, e⟩ | ⟨rfl, rfl, rfl, hq, hg, e⟩ | ⟨rfl, rfl, rfl, hq, hg, e⟩ | ⟨rfl, rfl, rfl, hqy, e⟩ | ⟨rfl, rfl, rfl, hqx, e⟩ |
+    ⟨rfl, h0, hz, _, e⟩ <;> rw [e]
   · have := xleg_mem hv hp
     simp [List.countP_cons, show x - 1 = x + sgnX 3 from rfl, this]
   · have := yleg_mem hv hp
@@ -173,6 +210,8 @@ theorem probeKeys_diag (hs : TS Lx Ly Lz a x y z) :
     simp [List.countP_cons, show z - 1 = z + -1 from rfl, this]
   · rw [diag_q hq hg]
   · rw [diag_r hq hg]
+  · rw [diag_y hqy]
+  · rw [diag_x hqx]
   · have e1 := sgnZ0_pos h0
     have := zleg_mem hv hp (by rw [e1]; omega)
     rw [e1] at this
@@ -185,8 +224,8 @@ theorem probeKeys_later {b u v w : Int} (hs : TS Lx Ly Lz a x y z) (ht : TS Lx L
     (hle : mu Ly Lz [a, x, y, z] ≤ mu Ly Lz [b, u, v, w]) :
     ((probeKeys Lx Ly Lz a x y z).countP fun q => decide (q ∈ triKeys Lx Ly Lz b u v w)) % 2 = 0 := by
   rcases probeKeys_cases hs with ⟨ha, e⟩ | ⟨ha, e⟩ | ⟨ha, hn, e⟩ | ⟨ha, hn, e⟩ | ⟨ha, hx, e⟩ |
-    ⟨ha, hx, h2, hz, e⟩ | ⟨ha, rfl, rfl, hq, hg, e⟩ | ⟨ha, rfl, rfl, hq, hg, e⟩ | ⟨ha, h0, hz, hn, e⟩ <;>
-    rw [e]
+    ⟨ha, hx, h2, hz, e⟩ | ⟨ha, rfl, rfl, hq, hg, e⟩ | ⟨ha, rfl, rfl, hq, hg, e⟩ | ⟨ha, rfl, rfl, hqy, e⟩ |
+    ⟨ha, rfl, rfl, hqx, e⟩ | ⟨ha, h0, hz, hn, e⟩ <;> rw [e]
   · have : [x - 1, y, z] ∉ triKeys Lx Ly Lz b u v w := fun h => later_3 hs ht hne hle ha h
     simp [List.countP_cons, this]
   · have : [x, y - 1, z] ∉ triKeys Lx Ly Lz b u v w := fun h => later_2 hs ht hne hle ha h
@@ -203,6 +242,10 @@ theorem probeKeys_later {b u v w : Int} (hs : TS Lx Ly Lz a x y z) (ht : TS Lx L
     exact later_q hq hg hs ht hne hle
   · subst ha
     exact later_r hq hg hs ht hne hle
+  · subst ha
+    exact later_y hqy hs ht hne hle
+  · subst ha
+    exact later_x hqx hs ht hne hle
   · have : [x, y, z + 1] ∉ triKeys Lx Ly Lz b u v w := fun h => later_0u hs ht hne hle ha h0 hn h
     simp [List.countP_cons, this]
 
